@@ -368,4 +368,342 @@ instrument and never rejected: they yield nothing, whatever is subscribed. -/
 theorem noise_yields_nothing (p : Pair) (m : IMap) (n : Noise) :
     transformNoise p m n = .events [] := rfl
 
+
+/-! ## Both instrument representations (review C13-1)
+
+Every connector has three `Identifier<Market>` impls; the theorems above are about the two that
+FORMAT the market from the underlying (`Subscription<_, MarketDataInstrument, _>`,
+`Subscription<_, Keyed<_, MarketDataInstrument>, _>`). The third,
+`Subscription<_, MarketInstrumentData<Key>, _>`, takes `name_exchange` **verbatim** and is the one
+the engine's indexed market stream uses (`streams/builder/dynamic/indexed.rs`). `InstRep` is the sum
+of the two; the theorems of §1–§3 and the refinement are restated here over **lists of `InstRep`**
+(any mixture); the statements above are the instances `subs.map .formatted`
+(`formatted_is_the_old_path`). -/
+
+/-- The model over the sum, restricted to formatted instruments, is the model the theorems above are
+about: same subscription ids, same instrument map, same spec verdict. -/
+theorem formatted_is_the_old_path (p : Pair) (subs : List Inst) :
+    (∀ i, subscriptionIdR p (.formatted i) = subscriptionId p i) ∧
+    mapOfR p (subs.map .formatted) = mapOf p subs ∧
+    ∀ m, specVerdictR p.exch (subs.map .formatted) m = specVerdict p.exch subs m :=
+  ⟨fun _ => rfl, mapOfR_formatted p subs, specVerdictR_formatted p.exch subs⟩
+
+/-- `market_is_venue_symbol`, verbatim path: the market the subscribe side derives IS the
+`name_exchange` the user supplied — identity: no case mapping, no formatting, for every connector
+and every string. Whether it is the venue's symbol is the user's responsibility
+(`lowercase_verbatim_name_is_rejected`). -/
+theorem market_is_venue_symbol_verbatim (e : Exch) (name : Str) (k : IKind) :
+    marketR e (.verbatim name k) = name := rfl
+
+/-- `market_is_venue_symbol` over the sum: formatted — the venue's symbol for the underlying;
+verbatim — the supplied name. -/
+theorem market_is_venue_symbol_rep (e : Exch) (r : InstRep) : marketR e r = venueSymbolR e r :=
+  marketR_eq_venueSymbolR e r
+
+/-- `payload_id_agrees` for either representation. -/
+theorem payload_id_agrees_rep (p : Pair) (hp : p ∈ supported) (hb : p.exch ≠ .bitfinex)
+    (r : InstRep) (msg : Msg) (hm : msg.market = marketR p.exch r) (hc : msg.chan = channel p r.kind)
+    (hne : p.exch.needsItem = true → msg.items ≠ []) :
+    payloadId p msg = some (subscriptionIdR p r) := by
+  rw [payloadId_some p msg hp hb hne, subscriptionIdR, hm]
+  congr 2
+  unfold payloadChan
+  by_cases hr : p.exch.readsChan = true
+  · simp [hr, hc]
+  · simp only [hr]; exact (channel_const p r.kind hp (by simpa using hr)).symm
+
+/-- `attributed` for either representation (and any mixture in one subscription list): a message
+for the market of the `k`-th subscribed instrument — the formatted symbol, or the verbatim
+`name_exchange` — is transformed into exactly the events of key `k`. -/
+theorem attributed_rep (p : Pair) (hp : p ∈ supported) (hb : p.exch ≠ .bitfinex)
+    (subs : List InstRep) (hd : (subs.map (subscriptionIdR p)).Nodup) (k : Nat) (r : InstRep)
+    (hk : subs[k]? = some r) (msg : Msg) (hm : msg.market = marketR p.exch r)
+    (hc : msg.chan = channel p r.kind) (hne : p.exch.needsItem = true → msg.items ≠ []) :
+    transform p (mapOfR p subs) msg = .events (events p k msg) := by
+  simp [transform, payload_id_agrees_rep p hp hb r msg hm hc hne, find_mapOfR p subs hd k r hk]
+
+/-- `rejected` for either representation: a message whose `(channel, market)` is not that of any
+subscribed instrument yields the unidentifiable error carrying the derived id. For a verbatim
+instrument "its market" is the supplied name, character for character. -/
+theorem rejected_rep (p : Pair) (hp : p ∈ supported) (hb : p.exch ≠ .bitfinex)
+    (subs : List InstRep) (msg : Msg) (hbar : '|' ∉ msg.chan)
+    (hno : ∀ r ∈ subs, ¬ (marketR p.exch r = msg.market ∧ channel p r.kind = payloadChan p msg))
+    (hne : p.exch.needsItem = true → msg.items ≠ []) :
+    transform p (mapOfR p subs) msg = .unidentifiable (subId (payloadChan p msg) msg.market) := by
+  have hid := payloadId_some p msg hp hb hne
+  have hnb : '|' ∉ payloadChan p msg := by
+    unfold payloadChan; split
+    · exact hbar
+    · exact channel_no_bar p .spot
+  have hnot : subId (payloadChan p msg) msg.market ∉ subs.map (subscriptionIdR p) := by
+    intro hmem
+    obtain ⟨r, hr, heq⟩ := List.mem_map.mp hmem
+    have := subId_inj_of_no_bar _ _ _ _ (channel_no_bar p r.kind) hnb heq
+    exact hno r hr ⟨this.2, this.1⟩
+  simp [transform, hid, find_mapOfR_none p subs _ hnot]
+
+/-- `rejected_never_event` for either representation. -/
+theorem rejected_never_event_rep (p : Pair) (hp : p ∈ supported) (hb : p.exch ≠ .bitfinex)
+    (subs : List InstRep) (msg : Msg) (hbar : '|' ∉ msg.chan)
+    (hno : ∀ r ∈ subs, ¬ (marketR p.exch r = msg.market ∧ channel p r.kind = payloadChan p msg))
+    (ev : Event) (evs : List Event) :
+    transform p (mapOfR p subs) msg ≠ .events (ev :: evs) := by
+  by_cases hne : p.exch.needsItem = true → msg.items ≠ []
+  · rw [rejected_rep p hp hb subs msg hbar hno hne]; intro h; cases h
+  · have hn : p.exch.needsItem = true := by
+      by_cases h : p.exch.needsItem = true
+      · exact h
+      · exact absurd (fun h' => absurd h' h) hne
+    have he : msg.items = [] := by
+      by_cases h : msg.items = []
+      · exact h
+      · exact absurd (fun _ => h) hne
+    simp [transform, payloadId_none_of_empty p msg hp hn he]
+
+/-- `refines_spec` for either representation: for subscribed instruments of builder-accepted kinds
+whose venue symbols (computed, or supplied verbatim) are pairwise distinct, the transformer does
+exactly what the attribution rule demands. -/
+theorem refines_spec_rep (p : Pair) (hp : p ∈ supported) (hb : p.exch ≠ .bitfinex)
+    (subs : List InstRep) (hs : ∀ r ∈ subs, supports p r.kind = true)
+    (hd : (subs.map (venueSymbolR p.exch)).Nodup)
+    (msg : Msg) (hc : msg.chan = venueChannel p)
+    (hne : p.exch.needsItem = true → msg.items ≠ []) :
+    match specVerdictR p.exch subs msg.market with
+    | .attributed k => transform p (mapOfR p subs) msg = .events (events p k msg)
+    | .rejected => ∃ id, transform p (mapOfR p subs) msg = .unidentifiable id
+    | .ambiguous => False := by
+  by_cases hmem : msg.market ∈ subs.map (venueSymbolR p.exch)
+  · obtain ⟨r, hr, hsym⟩ := List.mem_map.mp hmem
+    obtain ⟨k, hk⟩ := List.getElem?_of_mem hr
+    have hh := holdersFromR_unique p.exch 0 subs msg.market hd k r hk hsym
+    simp only [specVerdictR, holdersR, hh, Nat.zero_add]
+    apply attributed_rep p hp hb subs (idsR_nodup_of_symbols p subs hp hs hd) k r hk msg
+    · rw [marketR_eq_venueSymbolR, hsym]
+    · rw [hc, channel_of_supports p r.kind hp (hs r hr)]
+    · exact hne
+  · have hh := holdersFromR_none p.exch 0 subs msg.market hmem
+    simp only [specVerdictR, holdersR, hh]
+    refine ⟨_, rejected_rep p hp hb subs msg (hc ▸ venueChannel_no_bar p) ?_ hne⟩
+    intro r hr ⟨h1, _⟩
+    exact hmem (List.mem_map.mpr ⟨r, hr, by rw [← marketR_eq_venueSymbolR, h1]⟩)
+
+/-- The subscription list of the engine's indexed path whose `name_exchange`s are the venue symbols
+of the underlyings. -/
+def verbatimOf (e : Exch) (subs : List Inst) : List InstRep :=
+  subs.map fun i => .verbatim (venueSymbol e i) i.kind
+
+/-- `verbatim_agrees_with_formatted`: when every verbatim `name_exchange` is the venue symbol of
+the underlying, the two paths agree — same subscription ids, hence the same instrument map and the
+same result of `transform` for every message. -/
+theorem verbatim_agrees_with_formatted (p : Pair) (subs : List Inst) :
+    (∀ i, subscriptionIdR p (.verbatim (venueSymbol p.exch i) i.kind) = subscriptionId p i) ∧
+    mapOfR p (verbatimOf p.exch subs) = mapOf p subs ∧
+    ∀ msg, transform p (mapOfR p (verbatimOf p.exch subs)) msg = transform p (mapOf p subs) msg := by
+  have hid : ∀ i, subscriptionIdR p (.verbatim (venueSymbol p.exch i) i.kind) = subscriptionId p i := by
+    intro i; simp [subscriptionIdR, subscriptionId, marketR, InstRep.kind, market_eq_venueSymbol]
+  have hmap : ∀ (l : List Inst) (s : Nat) (m : IMap),
+      mapFromR p s m (verbatimOf p.exch l) = mapFrom p s m l := by
+    intro l
+    induction l with
+    | nil => intro s m; rfl
+    | cons i rest ih =>
+      intro s m
+      simp only [verbatimOf, List.map_cons, mapFromR, mapFrom, hid]
+      exact ih _ _
+  have hm : mapOfR p (verbatimOf p.exch subs) = mapOf p subs := hmap subs 0 []
+  exact ⟨hid, hm, fun msg => by rw [hm]⟩
+
+/-- the id of the unidentifiable error, if that is the result -/
+def rejectedId : Out → Option Str
+  | .unidentifiable id => some id
+  | .events _ => none
+
+/-- the instrument keys of the events, if events are the result -/
+def eventKeys : Out → Option (List Nat)
+  | .events evs => some (evs.map (·.key))
+  | .unidentifiable _ => none
+
+/-- Nothing normalises a verbatim name: on a venue whose symbols are upper case (Binance sends
+`BTCUSDT`), an instrument subscribed under the lower-cased `name_exchange` `btcusdt` does NOT receive
+the venue's messages — they are rejected as unidentifiable — whereas the upper-case name, and the
+same underlying on the formatted path (any spelling of base / quote), are attributed. -/
+theorem lowercase_verbatim_name_is_rejected :
+    let p : Pair := ⟨.binanceSpot, .publicTrades⟩
+    let msg : Msg := ⟨[], "BTCUSDT".toList, 0, [⟨1, 2, .buy, 5⟩]⟩
+    rejectedId (transform p (mapOfR p [.verbatim "btcusdt".toList .spot]) msg)
+      = some "@trade|BTCUSDT".toList ∧
+    eventKeys (transform p (mapOfR p [.verbatim "BTCUSDT".toList .spot]) msg) = some [0] ∧
+    eventKeys (transform p (mapOfR p [.formatted ⟨"btc".toList, "usdt".toList, .spot⟩]) msg)
+      = some [0] := by
+  decide
+
+/-- … and a verbatim name that is another venue's symbol for the same underlying (`BTC-USDT`, Okx /
+Coinbase style, on Binance) is rejected too. -/
+theorem other_venue_verbatim_name_is_rejected :
+    let p : Pair := ⟨.binanceSpot, .publicTrades⟩
+    let msg : Msg := ⟨[], "BTCUSDT".toList, 0, [⟨1, 2, .buy, 5⟩]⟩
+    rejectedId (transform p
+        (mapOfR p [.verbatim (venueSymbol .okx ⟨"btc".toList, "usdt".toList, .spot⟩) .spot]) msg)
+      = some "@trade|BTCUSDT".toList := by
+  decide
+
+/-! ### Bitfinex over both representations -/
+
+/-- `bitfinex_attributed` for either representation. -/
+theorem bitfinex_attributed_rep (subs : List InstRep)
+    (hd : (subs.map (subscriptionIdR bitfinex)).Nodup) (confs : List (Str × Nat))
+    (hs : (confs.map (·.1)).Nodup) (hc : (confs.map (·.2)).Nodup)
+    (k : Nat) (r : InstRep) (hk : subs[k]? = some r) (c : Nat)
+    (hconf : (marketR .bitfinex r, c) ∈ confs)
+    (msg : Msg) (hid : msg.chanId = c) (it : Item) (hi : msg.items = [it]) :
+    transform bitfinex (bitfinexConfirm (mapOfR bitfinex subs) confs) msg
+      = .events (events bitfinex k msg) := by
+  have h0 : (mapOfR bitfinex subs).find (subId "trades".toList (marketR .bitfinex r)) = some k :=
+    find_mapOfR bitfinex subs hd k r hk
+  have := find_confirm_attributed _ confs hs hc _ c k hconf h0
+  simp [transform, payloadId, bitfinex, hi, hid] at this ⊢
+  simp [this]
+
+/-- `bitfinex_rejected` for either representation. -/
+theorem bitfinex_rejected_rep (subs : List InstRep) (confs : List (Str × Nat))
+    (hc : (confs.map (·.2)).Nodup) (c : Nat)
+    (hcase : c ∉ confs.map (·.2) ∨
+      ∃ sym, (sym, c) ∈ confs ∧ sym ∉ subs.map (marketR .bitfinex))
+    (msg : Msg) (hid : msg.chanId = c) (it : Item) (hi : msg.items = [it]) :
+    transform bitfinex (bitfinexConfirm (mapOfR bitfinex subs) confs) msg
+      = .unidentifiable (Nat.toDigits 10 c) := by
+  have hdig : (mapOfR bitfinex subs).find (Nat.toDigits 10 c) = none := by
+    apply find_mapOfR_none
+    intro hmem
+    obtain ⟨i, _, heq⟩ := List.mem_map.mp hmem
+    exact digits_ne_subId c _ _ heq.symm
+  have hnone : (bitfinexConfirm (mapOfR bitfinex subs) confs).find (Nat.toDigits 10 c) = none := by
+    rcases hcase with hnot | ⟨sym, hmem, hsym⟩
+    · rw [find_digits_confirm _ _ _ hnot]; exact hdig
+    · apply find_confirm_rejected _ confs hc sym c hmem _ hdig
+      apply find_mapOfR_none
+      intro hmem'
+      obtain ⟨r, hr', heq⟩ := List.mem_map.mp hmem'
+      apply hsym
+      have : marketR .bitfinex r = sym := subId_injective _ _ _ heq
+      exact List.mem_map.mpr ⟨r, hr', this⟩
+  simp only [bitfinex] at hnone
+  simp [transform, payloadId, bitfinex, hi, hid, hnone]
+
+/-- `bitfinex_refines_spec` for either representation. -/
+theorem bitfinex_refines_spec_rep (subs : List InstRep)
+    (hsp : ∀ r ∈ subs, supports bitfinex r.kind = true)
+    (hd : (subs.map (venueSymbolR .bitfinex)).Nodup) (confs : List (Str × Nat))
+    (hs : (confs.map (·.1)).Nodup) (hc : (confs.map (·.2)).Nodup)
+    (msg : Msg) (it : Item) (hi : msg.items = [it]) :
+    let out := transform bitfinex (bitfinexConfirm (mapOfR bitfinex subs) confs) msg
+    match bitfinexSymbolOf confs msg.chanId with
+    | none => ∃ id, out = .unidentifiable id
+    | some sym =>
+      match specVerdictR .bitfinex subs sym with
+      | .attributed k => out = .events (events bitfinex k msg)
+      | .rejected => ∃ id, out = .unidentifiable id
+      | .ambiguous => False := by
+  intro out
+  have hids := idsR_nodup_of_symbols bitfinex subs (by decide) hsp hd
+  cases hsym : bitfinexSymbolOf confs msg.chanId with
+  | none =>
+    refine ⟨_, bitfinex_rejected_rep subs confs hc msg.chanId (Or.inl ?_) msg rfl it hi⟩
+    intro hmem
+    obtain ⟨x, hx, hx2⟩ := List.mem_map.mp hmem
+    simp only [bitfinexSymbolOf, Option.map_eq_none_iff, List.find?_eq_none] at hsym
+    exact absurd (hsym x (List.mem_reverse.mpr hx)) (by simp [hx2])
+  | some sym =>
+    simp only [bitfinexSymbolOf, Option.map_eq_some_iff] at hsym
+    obtain ⟨x, hfind, hx1⟩ := hsym
+    have hx2 : x.2 = msg.chanId := by simpa using List.find?_some hfind
+    have hmem : (sym, msg.chanId) ∈ confs := by
+      have := List.mem_reverse.mp (List.mem_of_find?_eq_some hfind)
+      rw [← hx1, ← hx2]; exact this
+    by_cases hin : sym ∈ subs.map (venueSymbolR .bitfinex)
+    · obtain ⟨r, hr', hsy⟩ := List.mem_map.mp hin
+      obtain ⟨k, hk⟩ := List.getElem?_of_mem hr'
+      simp only [specVerdictR, holdersR, holdersFromR_unique .bitfinex 0 subs sym hd k r hk hsy, Nat.zero_add]
+      exact bitfinex_attributed_rep subs hids confs hs hc k r hk msg.chanId
+        (by rw [marketR_eq_venueSymbolR, hsy]; exact hmem) msg rfl it hi
+    · simp only [specVerdictR, holdersR, holdersFromR_none .bitfinex 0 subs sym hin]
+      refine ⟨_, bitfinex_rejected_rep subs confs hc msg.chanId (Or.inr ⟨sym, hmem, ?_⟩) msg rfl it hi⟩
+      intro h
+      apply hin
+      obtain ⟨r, hr', hsy⟩ := List.mem_map.mp h
+      exact List.mem_map.mpr ⟨r, hr', by rw [← marketR_eq_venueSymbolR, hsy]⟩
+
+/-! ### Non-vacuity for the sum: a mixed list (verbatim + formatted) on Okx -/
+
+def exReps : List InstRep :=
+  [.verbatim "BTC-USDT".toList .spot, .formatted ⟨"bt".toList, "usd".toList, .perpetual⟩,
+   .verbatim "1INCH-USD-270101".toList (.future ⟨2027, 1, 1⟩)]
+
+example : ∀ r ∈ exReps, supports okxTrades r.kind = true := by decide
+example : (exReps.map (venueSymbolR .okx)).Nodup := by decide
+example : (exReps.map (subscriptionIdR okxTrades)).Nodup := by decide
+example : specVerdictR .okx exReps "1INCH-USD-270101".toList = .attributed 2 := by decide
+example : specVerdictR .okx exReps "btc-usdt".toList = .rejected := by decide
+example :
+    (match transform okxTrades (mapOfR okxTrades exReps)
+        ⟨"trades".toList, "BTC-USDT".toList, 0, [⟨1, 2, .buy, 5⟩]⟩ with
+      | .events evs => evs.map fun ev => (ev.key, ev.exch, ev.time)
+      | .unidentifiable _ => []) = [(0, .okx, 5)] := by
+  decide
+
+/-! ## The sign of `PublicTrade.amount` (review C13-3)
+
+The property constrains the traded quantity `|amount|` and the side (`trade_fields_as_stated`); it
+says nothing about the sign of the `amount` field, and the connectors differ. The model mirrors the
+code (observation key `sgn`, compared with the implementation; the spec is silent). -/
+
+/-- Per connector, which sign convention the `amount` of its trade events carries
+(`Exch.signConv`): Bitfinex — the absolute value (never negative), side from the sign;
+Gateio futures / perpetuals / options — the venue's **signed** size as it is (negative exactly for
+sells), side from the sign; every other connector — the payload's amount field unchanged, side from
+the side field. -/
+theorem amount_sign_convention (e : Exch) (it : Item) :
+    match e.signConv with
+    | .absolute => tradeOf e it = .trade it.price (absR it.amount) (signSide it.amount) ∧
+        0 ≤ absR it.amount
+    | .signed => tradeOf e it = .trade it.price it.amount (signSide it.amount) ∧
+        (it.amount < 0 ↔ signSide it.amount = .sell)
+    | .asStated => tradeOf e it = .trade it.price it.amount it.side := by
+  cases e <;> simp [Exch.signConv, tradeOf, absR_nonneg, signSide] <;> split <;> simp_all
+
+/-- … as a statement about the events: every trade event of a pair carries, for the `j`-th trade of
+the payload, the amount its connector's convention prescribes. In particular a Gateio
+futures / perpetual / option sell is reported with a NEGATIVE amount while every other connector
+reports a non-negative one for unsigned payloads. -/
+theorem events_amount_sign (p : Pair) (hk : p.kind = .publicTrades) (k : Nat) (msg : Msg)
+    (hs : shapeOk p msg = true) :
+    (events p k msg).map (·.kind.amount?) = msg.items.map fun it =>
+      some (match p.exch.signConv with
+        | .absolute => absR it.amount
+        | .signed | .asStated => it.amount) := by
+  have key : ∀ it : Item, (tradeOf p.exch it).amount? =
+      some (match p.exch.signConv with
+        | .absolute => absR it.amount
+        | .signed | .asStated => it.amount) := by
+    intro it
+    cases he : p.exch <;> simp [tradeOf, Exch.signConv, EvKind.amount?]
+  unfold events
+  simp only [hk]
+  by_cases hst : p.exch.singleTrade = true
+  · simp only [hst, ↓reduceIte]
+    unfold shapeOk at hs
+    simp only [hk] at hs
+    match hi : msg.items with
+    | [] => simp
+    | [it] => simp [key]
+    | a :: b :: rest =>
+      rw [hi] at hs
+      cases he : p.exch <;> simp_all [Exch.singleTrade]
+  · simp only [hst]
+    simp [List.map_map, Function.comp_def, key]
+
+/-- the two conventions disagree on the same signed payload: Gateio perpetuals report `-2`, Bitfinex `2` -/
+example : (tradeOf .gateioPerpetualsUsd ⟨100, -2, .buy, 5⟩).amount? = some (-2) ∧
+    (tradeOf .bitfinex ⟨100, -2, .buy, 5⟩).amount? = some 2 := by decide
+
 end BarterModel.Props.C13
